@@ -44,3 +44,42 @@ PROPS["C14"] = dict(
     outside="collision resistance; SHA3-256 itself on symbolic input (anchored on concrete items only); non-ASCII strings passed to from_hexdigest",
     trusted=["Kani MIR->goto translation and CBMC's bit-precise semantics", "harness-side model: (a+b) mod p in u64 with the eight published primes"],
 )
+
+# ---------------------------------------------------------------- C17 (skipfree part)
+GROUPS["skipfree"] = Group("skipfree", "incrate", package="skipfree")
+VH = "verif_harness::"
+_ops = {"seek_next": "seek(q) then next", "seek_prev": "seek(q) then prev", "last_prev": "seek_to_last then prev", "first_prev": "seek_to_first then prev"}
+_B2 = "keys, values, probe and seek argument: all u8; MAX_HEIGHT=2; 2 inserts; heights and call sequence concrete"
+def _s2(h, op, tier):
+    return (f"s2_h{h}_{op}", tier, 420, f"2 inserts (heights {h[0]},{h[1]}) of distinct symbolic keys; contains(q) iff inserted; {_ops[op]}: iterator lands on the nearest key in that direction (sorted-array model)", _B2)
+_sk = [_s2("11", "seek_next", "quick"), _s2("21", "seek_prev", "quick"), _s2("12", "last_prev", "quick"), _s2("22", "first_prev", "quick")]
+_sk += [_s2(h, op, "thorough") for h, op in [("11","seek_prev"),("11","last_prev"),("11","first_prev"),("21","seek_next"),("21","last_prev"),("12","seek_next"),("12","seek_prev"),("22","seek_next"),("22","seek_prev"),("22","last_prev")]]
+_sk += [
+    ("s2_h11_forward", "thorough", 900, "full forward iteration of 2 keys", _B2),
+    ("s2_h21_backward", "thorough", 900, "full backward iteration of 2 keys down to the head", _B2),
+    ("s3_h111_member", "thorough", 900, "3 inserts; contains(q) iff inserted", "3 keys all u8, heights 1,1,1"),
+    ("s3_h121_seek", "thorough", 900, "3 inserts; seek(q) lands on the first key >= q", "3 keys all u8, heights 1,2,1"),
+    ("s3_h212_seek", "thorough", 900, "3 inserts; seek(q) lands on the first key >= q", "3 keys all u8, heights 2,1,2"),
+    ("iter_after_drop_h11_seek_next", "quick", 420, "iterator used after the list is dropped at a symbolic point of seek(q),next: memory-safe (CBMC pointer checks) and contents intact; the iterator then frees the nodes", "2 keys, heights 1,1"),
+    ("iter_after_drop_h21_seek_prev", "thorough", 420, "same for seek(q),prev", "2 keys, heights 2,1"),
+    ("iter_after_drop_h12_last_prev", "thorough", 420, "same for seek_to_last,prev", "2 keys, heights 1,2"),
+    ("iter_clone_after_drop", "quick", 420, "a cloned iterator survives the drop of the list and of the other clone", "2 keys, heights 1,2"),
+    ("nested2_h11", "quick", 600, "insert with one nested interference (second insert or reader) at the yield point before the publishing CAS; reaches the CAS-failure re-search", "2 keys, heights 1,1, budget 1"),
+    ("nested2_h21", "thorough", 900, "same, outer node of height 2", "2 keys, heights 2,1, budget 1"),
+    ("nested2_h12", "thorough", 900, "same, nested node of height 2", "2 keys, heights 1,2, budget 1"),
+    ("nested2_h22", "thorough", 1200, "same, both height 2, budget 2", "2 keys, heights 2,2, budget 2"),
+    ("nested3_h111", "thorough", 1500, "3 keys, up to 2 nested interferences, depth<=2", "3 keys, heights 1,1,1, budget 2"),
+]
+PROPS["C17"] = dict(
+    harnesses=hs("skipfree", VH, unwind=4, miri=True, items=_sk),
+    level_text="x", level_note="y",
+)
+GROUPS["listfree"] = Group("listfree", "incrate", package="listfree")
+PROPS["C17"]["harnesses"] += hs("listfree", VH, unwind=4, miri=True, items=[
+    ("seq1", "quick", 120, "1 prepend; iteration yields it once", "all u8 values"),
+    ("seq3", "quick", 200, "3 prepends: newest first, each once; an iterator taken after a symbolic number of prepends is a stable snapshot; drop frees each node once", "all u8 values; all cut points"),
+    ("seq4", "thorough", 400, "4 prepends, same assertions", "all u8 values; all cut points"),
+    ("nested2", "quick", 200, "outer prepend with one nested interference (prepend or reader) at the yield point", "2 items, budget 1, all choices"),
+    ("nested3", "quick", 300, "outer prepend with up to 2 nested interferences, depth<=2", "3 items, budget 2, all choices"),
+    ("nested4", "thorough", 600, "outer prepend with up to 3 nested interferences, depth<=2", "4 items, budget 3, all choices"),
+])
